@@ -1478,6 +1478,16 @@ def sweep_c15(rng, tier):
     for a in (dead if tier == "thorough" else dead[:2] + samp(rng, dead[2:], 2)):
         for b in live:
             ex.append((a + " " + b, ts0)); ex.append((b + " " + a, ts0))
+    # junction family: two expressions with one character between them and no blank - every printable ASCII punctuation mark and a few
+    # letters / symbols.  Whether the character separates (pre-processing turns it into a blank), belongs to a pattern, or is an unmatched
+    # gap is for the code to say; the closure above decides adjacency on its own ("nothing but blanks between two matches")
+    left = ["tomorrow", "5.12.2020", "monday", "morgen", "3 may"]; right = ["5pm", "8:30", "9h", "17 uhr", "noon"]
+    marks = [c for c in "!\"$%&'()*+,./:;<=>?@[\\]^_`{|}~"] + ["x", "§", "×", "→", "&&", "+ +"]
+    for g in marks:
+        pairs = [(a, b) for a in left for b in right] if tier == "thorough" else [(rng.choice(left), rng.choice(right))]
+        for a, b in pairs:
+            ex.append((a + g + b, ts0))
+            if tier == "thorough": ex.append((b + g + a, ts0))
     cases = []
     for t, ts in ex:
         cases.append((t, ts, {"scorer": "const", "depth": 0, "seed": 0}))
@@ -1669,7 +1679,9 @@ def sweep_c17(rng, tier):
              ("12.12.2020", Time(2020, 12, 12)), ("lunch 12.12.2020 with bob", Time(2020, 12, 12)), ("3 days", Duration(3, DurationUnit.HOURS)), ("before 5pm", Interval(None, Time(hour=17, minute=0))),
              # bare clock values and ranges: what the parser would anchor to a date at run time stays un-anchored in the training labels
              ("8:00 pm", Time(hour=20, minute=0)), ("5pm", Time(hour=17, minute=0)), ("call at 17:30", Time(hour=17, minute=30)),
-             ("8:00 pm - 9:00 pm", Interval(Time(hour=20, minute=0), Time(hour=21, minute=0)))]
+             ("8:00 pm - 9:00 pm", Interval(Time(hour=20, minute=0), Time(hour=21, minute=0))),
+             # the same text annotated differently (annotators disagree, or a value next to a range)
+             ("friday 8pm-9pm", Time(2018, 3, 9, 20, 0)), ("tomorrow 5pm", Time(2018, 3, 8)), ("monday morning", Time(DOW=0))]
     try:
         ds = load_timeparse_corpus(os.path.join(REPO, "datasets", "timeparse_corpus.json"))
         extra = samp(rng, list(ds), 60 if tier == "thorough" else 12)
@@ -1685,9 +1697,13 @@ def sweep_c17(rng, tier):
             fails.append({"text": gold.nb_str(), "ts": None, "opts": {}, "expected": "parse_nb_string(nb_str(x)) == x", "observed": type(e).__name__, "what": "C17 gold round trip"}); continue
         if back != gold:
             fails.append({"text": gold.nb_str(), "ts": None, "opts": {}, "expected": "parse_nb_string(nb_str(x)) == x", "observed": back.nb_str(), "what": "C17 gold round trip"})
+    # the same text at another reference time (its gold differs because the day differs)
+    entries.append(TimeParseEntry(text="tomorrow 5pm", ts=datetime(2020, 2, 29, 23, 30), gold=Time(2020, 3, 1, 17, 0)))
+    entries.append(TimeParseEntry(text="tomorrow 5pm", ts=datetime(2020, 2, 29, 23, 30), gold=Time(2018, 3, 8, 17, 0)))
     entries += extra
     # every option the builder forwards is honoured: relative_match_len incl. 0 (every initial sequence), depth limits
     optsets = [(1.0, 0), (0.0, 0), (0.5, 0), (1.0, 10), (0.0, 3)]
+    want_by_entry = {}
     for ei, e in enumerate(entries):
         for (rml, depth) in (optsets if ei < len(golds) else optsets[:2]):
             cands = [p for p in ctparse_gen(e.text, e.ts, relative_match_len=rml, timeout=0, max_stack_depth=depth, scorer=DummyScorer(), latent_time=False) if p is not None]
@@ -1701,6 +1717,7 @@ def sweep_c17(rng, tier):
                 y = same(p.resolution, e.gold)
                 for i in range(1, len(p.production) + 1):
                     want.append(([str(x) for x in p.production[:i]], y))
+            if (rml, depth) == (1.0, 0): want_by_entry[ei] = list(want)
             got = [(list(X), bool(y)) for X, y in make_partial_rule_dataset([e], DummyScorer(), timeout=0, max_stack_depth=depth, relative_match_len=rml)]
             got_list = list(make_partial_rule_dataset([e], DummyScorer(), timeout=0, max_stack_depth=depth, relative_match_len=rml))     # materialised: aliases would show here
             got2 = [(list(X), bool(y)) for X, y in got_list]
@@ -1710,8 +1727,34 @@ def sweep_c17(rng, tier):
             norm_ = (lambda l: sorted(l, key=repr)) if depth else (lambda l: l)
             if norm_(got) != norm_(want) or norm_(got2) != norm_(want):
                 fails.append({"text": e.text, "ts": str(e.ts), "opts": {"gold": e.gold.nb_str(), "relative_match_len": rml, "max_stack_depth": depth}, "expected": "%d samples: one per trace prefix, label = value equality with gold" % len(want), "observed": "%d samples, %d positive (expected %d positive)" % (len(got2), sum(y for _, y in got2), sum(y for _, y in want)), "what": "C17 dataset"})
+    # the builder over a whole corpus is the concatenation of what it yields per entry, in the order of the entries: no state is carried
+    # from one entry to the next (the corpus holds the same text with different golds, exact repeats, and the same text at another reference time)
+    idx = list(range(len(entries)))
+    orders = [idx, idx[::-1], idx + idx]
+    sh = idx[:]; rng.shuffle(sh); orders.append(sh)
+    rep = [i for i in idx if i < len(golds)]
+    orders.append([i for pair in zip(rep, rep[1:] + rep[:1]) for i in pair])
+    for order in orders:
+        if any(i not in want_by_entry for i in order): continue
+        want_all = [s_ for i in order for s_ in want_by_entry[i]]
+        try:
+            got_all = [(list(X), bool(y)) for X, y in make_partial_rule_dataset([entries[i] for i in order], DummyScorer(), timeout=0, max_stack_depth=0, relative_match_len=1.0)]
+        except Exception as ex:
+            got_all = "%s: %s" % (type(ex).__name__, ex)
+        dist["whole-corpus datasets"] += 1
+        if got_all != want_all:
+            bad = next((k for k, (a, b) in enumerate(zip(got_all, want_all)) if a != b), min(len(got_all), len(want_all))) if isinstance(got_all, list) else 0
+            # which entry does the first differing sample belong to
+            acc, culprit = 0, order[-1]
+            for i in order:
+                acc += len(want_by_entry[i])
+                if bad < acc: culprit = i; break
+            e = entries[culprit]
+            fails.append({"text": e.text, "ts": str(e.ts), "opts": {"gold": e.gold.nb_str(), "corpus": [[entries[i].text, str(entries[i].ts), entries[i].gold.nb_str()] for i in order][:40], "relative_match_len": 1.0, "max_stack_depth": 0},
+                          "expected": "the samples of a corpus are the samples of its entries one after the other (%d samples); sample %d: %r" % (len(want_all), bad, want_all[bad] if bad < len(want_all) else None),
+                          "observed": ("%d samples; sample %d: %r" % (len(got_all), bad, got_all[bad] if bad < len(got_all) else None)) if isinstance(got_all, list) else got_all, "what": "C17 dataset over a corpus"})
     # run_corpus on a mini corpus of every result type
-    mini = [(g.nb_str(), "2018-03-07T12:43", [t]) for t, g in golds if not (t == "3 days" and g.unit == DurationUnit.HOURS)]
+    mini = [(g.nb_str(), "2018-03-07T12:43", [t]) for t, g in golds[:-3] if not (t == "3 days" and g.unit == DurationUnit.HOURS)]
     try:
         Xs, ys = run_corpus(mini)
         dist["run_corpus samples"] += len(Xs)
